@@ -29,12 +29,12 @@ theorem G01_encodedRecordSize_model (r : Rec) (hf : r.Fits) :
 
 /-- `slot.kvSize` does not wrap for sizes within the limits. -/
 theorem G01_kvSize (ks : BitVec 16) (vs : BitVec 32) (h : vs.toNat < 2 ^ 31) :
-    (Funcs.kvSize ks vs).toNat = ks.toNat + vs.toNat := by
+    (Funcs.kvSize (f_keySize := ks) (f_valueSize := vs)).toNat = ks.toNat + vs.toNat := by
   unfold Funcs.kvSize
   bv_omega
 
 /-- Bit 31 of the value-size word is the delete flag. -/
-theorem G01_deleteBitGuard (vs : BitVec 32) : Funcs.deleteBitGuard vs = decide (2 ^ 31 ≤ vs.toNat) := by
+theorem G01_deleteBitGuard (vs : BitVec 32) : Funcs.deleteBitGuard (v_valueSize := vs) = decide (2 ^ 31 ≤ vs.toNat) := by
   unfold Funcs.deleteBitGuard
   have h1 := and_bit31_toNat vs
   have h2 : (2147483648#32 &&& vs) = (vs &&& 2147483648#32) := BitVec.and_comm _ _
@@ -44,7 +44,7 @@ theorem G01_deleteBitGuard (vs : BitVec 32) : Funcs.deleteBitGuard vs = decide (
 /-- The value-size word the model writes (`Rec.body`) carries the record's delete flag in the bit the
 code tests. -/
 theorem G01_deleteBit_model (r : Rec) (hf : r.Fits) :
-    Funcs.deleteBitGuard (BitVec.ofNat 32 (r.val.length + (if r.del then 2 ^ 31 else 0))) = r.del := by
+    Funcs.deleteBitGuard (v_valueSize := BitVec.ofNat 32 (r.val.length + (if r.del then 2 ^ 31 else 0))) = r.del := by
   obtain ⟨_, hv⟩ := hf
   rw [G01_deleteBitGuard, BitVec.toNat_ofNat]
   cases hd : r.del
